@@ -438,6 +438,39 @@ def modAssign (t : DurTy) (c d : Int) : Except Err Int := do
   let r ← cmod t.rep.promote c d
   .ok (t.rep.conv r)
 
+/-! ### compound assignment with a duration of ANOTHER type
+
+`x += d2`, `x -= d2`, `x %= d2` on `duration<Rep1, Period1> x` with `d2 : duration<Rep2, Period2>`: the parameter of the member
+is `duration const&`, so the argument is first converted by the implicit converting constructor `duration(duration<Rep2,
+Period2> const&)` (which takes part in overload resolution only when `ratio_divide<Period2, period>::den == 1`); the member
+then works on the two counts in `Rep1`.  `operator+=` and `operator-=` of `time_point` take `duration const&` as well: the same conversion. -/
+
+/-- static context: the converting constructor `D1(D2)` -/
+def assign2Ctx (t frm : DurTy) : Except Err CastCtx := castCtx t frm
+
+def addAssign2Core (k : CastCtx) (t : DurTy) (c d : Int) : Except Err Int := do
+  let e ← convertCore k d
+  let r ← arith t.rep.promote (c + e)
+  .ok (t.rep.conv r)
+def addAssign2 (t frm : DurTy) (c d : Int) : Except Err Int := do let k ← assign2Ctx t frm; addAssign2Core k t c d
+
+def subAssign2Core (k : CastCtx) (t : DurTy) (c d : Int) : Except Err Int := do
+  let e ← convertCore k d
+  let r ← arith t.rep.promote (c - e)
+  .ok (t.rep.conv r)
+def subAssign2 (t frm : DurTy) (c d : Int) : Except Err Int := do let k ← assign2Ctx t frm; subAssign2Core k t c d
+
+/-- `_rep %= rhs.count()` after the conversion of `rhs` -/
+def modAssign2Core (k : CastCtx) (t : DurTy) (c d : Int) : Except Err Int := do
+  let e ← convertCore k d
+  let r ← cmod t.rep.promote c e
+  .ok (t.rep.conv r)
+def modAssign2 (t frm : DurTy) (c d : Int) : Except Err Int := do let k ← assign2Ctx t frm; modAssign2Core k t c d
+
+/-- `time_point<Clock, D1>::operator+=(duration const&)` / `-=` called with a `duration<Rep2, Period2>`: `_d += d` / `_d -= d` -/
+def tpAddAssign2 (t frm : DurTy) (c d : Int) : Except Err Int := addAssign2 t frm c d
+def tpSubAssign2 (t frm : DurTy) (c d : Int) : Except Err Int := subAssign2 t frm c d
+
 /-! ### time_point members, casts and comparisons: each forwards to the duration function on `time_since_epoch()`
 
 A `time_point<Clock, Duration>` is modelled by the tick count of its `_d`; the functions below are the bodies of
